@@ -7,7 +7,7 @@ from typing import Dict, List, Optional, Set, Tuple
 
 from ..astutil import arg_of, call_name, calls, enclosing_loops, guards, kwarg, last_attr, stmt_key, txt, walk_local
 from ..cfg import CFG
-from ..flow import bound_from, facts_nnf, inline_reaching, literals, path_facts
+from ..flow import bound_from, effective_compare, facts_nnf, inline_reaching, literals, oriented, path_facts
 from ..index import AnalysisError, dotted
 from ..report import Ctx
 
@@ -212,25 +212,43 @@ def r16_1(ctx: Ctx) -> None:
     gcfg = CFG(gen)
     existing = _aliases(gen, gen.args.args[1].arg) if len(gen.args.args) > 1 else set()
     loops = [n for n in walk_local(gen) if isinstance(n, ast.While)]
-    ok = False
+    rets = [r for r in walk_local(gen) if isinstance(r, ast.Return) and r.value is not None]
+    ok = len(loops) == 1 and bool(rets)
     form = ""
-    if len(loops) == 1 and isinstance(loops[0].test, ast.Compare) and len(loops[0].test.ops) == 1 \
-            and isinstance(loops[0].test.ops[0], ast.In) and txt(loops[0].test.comparators[0]) in existing:
-        subject = txt(loops[0].test.left)
-        form = txt(loops[0].test)
-        rets = [r for r in walk_local(gen) if isinstance(r, ast.Return) and r.value is not None]
-        ok = bool(rets)
-        for ret in rets:
-            first = ret.value.elts[0] if isinstance(ret.value, ast.Tuple) and ret.value.elts else ret.value
-            same = txt(first) == subject or txt(inline_reaching(gcfg, ret, first)) == txt(inline_reaching(gcfg, loops[0], loops[0].test.left))
-            # nothing the candidate is built from changes between the loop exit and the return
-            after_loop = cfg_after_loop(gcfg, loops[0])
-            parts = {n.id for n in ast.walk(inline_reaching(gcfg, loops[0], loops[0].test.left)) if isinstance(n, ast.Name)}
-            changed = any(gcfg.defs_at(nid) & parts and gcfg.n(ret) in gcfg.reach([nid]) for nid in after_loop
-                          if gcfg.nodes[nid].ast is not None and not _defines_only(gcfg.nodes[nid].ast, txt(first)))
-            ok = ok and same and not changed
+    for ret in rets if ok else []:
+        first = ret.value.elts[0] if isinstance(ret.value, ast.Tuple) and ret.value.elts else ret.value
+        # on every path to the return the returned candidate was last seen to be absent from the set: a (still fresh)
+        # `candidate in existing` that was false, whether it is the loop's own test or the test of a break inside it
+        free = []
+        for expr, truth in path_facts(gcfg, ret, fresh_only=True):
+            cmp_ = expr
+            while isinstance(cmp_, ast.UnaryOp) and isinstance(cmp_.op, ast.Not):
+                cmp_, truth = cmp_.operand, not truth
+            if isinstance(cmp_, ast.Compare) and len(cmp_.ops) == 1 and txt(cmp_.comparators[0]) in existing \
+                    and (isinstance(cmp_.ops[0], ast.In) and not truth or isinstance(cmp_.ops[0], ast.NotIn) and truth) \
+                    and any(a is loops[0] for a in _ancestors(cmp_)):
+                free.append(cmp_)
+        form = "; ".join(txt(f) for f in free)
+        same = False
+        for f in free:
+            if txt(f.left) == txt(first):
+                same = True
+            else:
+                at = next((a for a in [f] + list(_ancestors(f)) if isinstance(a, ast.stmt)), None)
+                seen, given = inline_reaching(gcfg, at, f.left), inline_reaching(gcfg, ret, first)
+                names = {n.id for n in ast.walk(seen) if isinstance(n, ast.Name)}
+                same = same or (txt(seen) == txt(given) and at is not None
+                                and all(gcfg.reaching_defs(n, gcfg.n(at)) == gcfg.reaching_defs(n, gcfg.n(ret)) for n in names))
+        ok = ok and same
     ctx.ob("R16.1", RP, gen, "generate_unique_id", "loop until free", ok,
            "generate_unique_id loops until the candidate is not in the given set and returns that candidate", form=form)
+
+
+def _ancestors(node: ast.AST):
+    cur = getattr(node, "_parent", None)
+    while cur is not None:
+        yield cur
+        cur = getattr(cur, "_parent", None)
 
 
 def cfg_after_loop(cfg: CFG, loop: ast.AST) -> Set[int]:
@@ -260,6 +278,50 @@ def _strip_of(expr: ast.AST, charset: str) -> Optional[str]:
                     and txt(test.left) == var and txt(test.comparators[0]) == charset:
                 return txt(gen.iter)
     return None
+
+
+def _replaces_illegal(func: ast.AST) -> bool:
+    """ every character of a punctuation set is replaced by an underscore in the returned string: a loop/chain of
+        `x = x.replace(char, "_")` over the characters of the set, or "".join("_" if c in set else c for c in x) """
+    charsets = {n.targets[0].id for n in walk_local(func) if isinstance(n, ast.Assign) and isinstance(n.targets[0], ast.Name)
+                and isinstance(n.value, ast.Call) and call_name(n.value) in ("set", "frozenset") and n.value.args
+                and isinstance(n.value.args[0], ast.Constant) and isinstance(n.value.args[0].value, str)
+                and set('/ :;,()|"\'*?') <= set(n.value.args[0].value)}
+    if not charsets:
+        return False
+    cfg = CFG(func)
+    rets = [r for r in walk_local(func) if isinstance(r, ast.Return) and r.value is not None
+            and not (isinstance(r.value, ast.Constant) and r.value.value is None)]
+    if not rets:
+        return False
+    for ret in rets:
+        value = inline_reaching(cfg, ret, ret.value, keep=charsets)
+        fine = False
+        if isinstance(value, ast.Call) and last_attr(value) == "join" and len(value.args) == 1 \
+                and isinstance(value.args[0], (ast.GeneratorExp, ast.ListComp)) and len(value.args[0].generators) == 1 \
+                and not value.args[0].generators[0].ifs and isinstance(value.args[0].elt, ast.IfExp):
+            gen, elt = value.args[0].generators[0], value.args[0].elt
+            var = txt(gen.target)
+            cmp_ = effective_compare(elt.test)
+            if cmp_ is not None and txt(cmp_[0]) == var and txt(cmp_[2]) in charsets:
+                under, other = (elt.body, elt.orelse) if cmp_[1] == "in" else (elt.orelse, elt.body)
+                fine = cmp_[1] in ("in", "not in") and isinstance(under, ast.Constant) and under.value == "_" and txt(other) == var
+        elif isinstance(ret.value, ast.Name):
+            # replace loop: for char in <something over the set>: name = name.replace(char, "_")
+            name = ret.value.id
+            for loop in [n for n in walk_local(func) if isinstance(n, ast.For)]:
+                var = txt(loop.target)
+                over = any(isinstance(n, ast.Name) and n.id in charsets for n in ast.walk(loop.iter))
+                repl = [st for st in loop.body if isinstance(st, ast.Assign) and txt(st.targets[0]) == name
+                        and isinstance(st.value, ast.Call) and last_attr(st.value) == "replace" and txt(st.value.func.value) == name
+                        and len(st.value.args) == 2 and txt(st.value.args[0]) == var
+                        and isinstance(st.value.args[1], ast.Constant) and st.value.args[1].value == "_"]
+                unconditional = [st for st in repl if not [g for g in guards(st, stop=loop)
+                                                           if not (isinstance(g[0], ast.Compare) and txt(g[0].comparators[0]) in charsets)]]
+                fine = fine or (over and bool(unconditional))
+        if not fine:
+            return False
+    return True
 
 
 def r16_2(ctx: Ctx) -> None:
@@ -348,6 +410,9 @@ def inline_text(cfg: CFG, at: ast.AST, text: str) -> str:
 def _bounded(cfg: CFG, func: ast.AST, write: ast.Assign, limit: int, depth: int = 0) -> Tuple[bool, str]:
     value = write.value
     if isinstance(value, ast.Name):
+        direct = _bounded_expr(cfg, func, write, value, limit)
+        if direct[0]:
+            return direct
         verdicts = []
         for d in cfg.reaching_defs(value.id, cfg.n(write)):
             node = cfg.nodes[d].ast if d >= 0 else None
@@ -377,14 +442,18 @@ def _bounded_expr(cfg: CFG, func: ast.AST, stmt: ast.AST, value: ast.AST, limit:
                 if len(bounded_arm) == 1 and "allow_long" in txt(ml.test):
                     return True, f"generate_unique_id(max_length={limit} unless long names are allowed)"
         return False, f"{text[:50]}: no max_length <= {limit}"
+    resolved = txt(inline_reaching(cfg, stmt, value))
     for expr, truth in path_facts(cfg, stmt, fresh_only=True):
-        if not (isinstance(expr, ast.Compare) and len(expr.ops) == 1 and isinstance(expr.comparators[0], ast.Constant)
-                and isinstance(expr.comparators[0].value, int) and txt(expr.left) == f"len({text})"):
+        cmp_ = effective_compare(expr, truth)
+        cmp_ = oriented(cmp_, lambda e: isinstance(e, ast.Call) and call_name(e) == "len" and len(e.args) == 1) if cmp_ else None
+        if cmp_ is None or not (isinstance(cmp_[2], ast.Constant) and isinstance(cmp_[2].value, int)):
             continue
-        bound = expr.comparators[0].value
-        op = expr.ops[0]
-        if (truth and isinstance(op, ast.LtE) and bound <= limit) or (truth and isinstance(op, ast.Lt) and bound <= limit + 1) \
-                or (not truth and isinstance(op, ast.Gt) and bound <= limit) or (not truth and isinstance(op, ast.GtE) and bound <= limit + 1):
+        measured = cmp_[0].args[0]
+        anchor = expr if hasattr(expr, "_parent") else stmt
+        if txt(measured) != text and txt(inline_reaching(cfg, anchor, measured)) != resolved:
+            continue
+        bound = cmp_[2].value
+        if (cmp_[1] == "<=" and bound <= limit) or (cmp_[1] == "<" and bound <= limit + 1):
             return True, f"guarded by {'' if truth else 'not '}{txt(expr)}"
     return False, f"{text[:50]}: length not bounded by a guard"
 
@@ -516,7 +585,7 @@ def r16_5(ctx: Ctx) -> None:
     ctx.ob("R16.5", REC, cfg.nodes[name_tests[0][0]].ast if name_tests else func, qual, "duplicate name renamed or rejected", ok,
            "a gene whose name is taken is either rejected or renamed with its location checksum before being stored", form="")
     san = ctx.fn(CDS, "_sanitise_id_value")
-    ok = 'name.replace(char, "_")' in txt(san).replace("'", '"') and "illegal_chars" in txt(san)
+    ok = _replaces_illegal(san)
     ctx.ob("R16.5", CDS, san, "_sanitise_id_value", "gene id sanitised", ok,
            "characters that break external programs are replaced in gene identifiers", form="")
 
